@@ -1,6 +1,6 @@
 # Configuration of ./check C13 (fields: see props.d/C06.py).
 PROP = {
-    "regen_files": ["GenDeleg.v"],
+    "regen_files": ["GenDeleg.v", "GenSigs.v"],
     "num": 13,
     "runs": [{"tag": "c13", "bin": "c13"},
              {"tag": "c13-release", "bin": "c13", "profile": "release", "tiers": ["thorough"]}],
